@@ -217,3 +217,12 @@ func init() {
 		return true
 	}
 }
+
+func init() {
+	// the protobuf interface registry is reflection all the way down; packages create one in their
+	// variable initialisers (module codecs). It is an opaque nil here: any use is a nil dereference
+	// inside the engine, i.e. an explicit failure, never a wrong answer.
+	externals["github.com/cosmos/cosmos-sdk/codec/types.NewInterfaceRegistry"] = func(fr *frame, args []value) value {
+		return iface{}
+	}
+}
